@@ -302,23 +302,20 @@ def r8(R, repo):
   enum = mod.cls('BackendMode')
   modes = sorted(t.id for st in enum.body if isinstance(st, ast.Assign) for t in st.targets if isinstance(t, ast.Name))
   R.require(len(modes) >= 2, 'BackendMode members not found')
-  shims = [f for q, f in mod.funcs.items() if '.' not in q and any('io_mode ==' in astu.src(n) for n in astu.body_walk(f.node) if isinstance(n, ast.If))]
+  shims = [f for q, f in mod.funcs.items() if '.' not in q and any(('io_mode ==' in astu.src(n.test) or 'io_mode !=' in astu.src(n.test)) for n in astu.body_walk(f.node) if isinstance(n, ast.If))]
   R.require(len(shims) >= 11, 'expected >= 11 io shims, found %d' % len(shims))
   for f in shims:
-    handled = set()
-    top = [s for s in f.node.body if isinstance(s, ast.If)]
-    cur = top[0] if top else None
-    final = None
-    while cur is not None:
-      m = re.match(r'io_mode == BackendMode\.(\w+)$', astu.src(cur.test))
-      if m:
-        handled.add(m.group(1))
-      if len(cur.orelse) == 1 and isinstance(cur.orelse[0], ast.If):
-        cur = cur.orelse[0]
-      else:
-        final = cur.orelse
-        cur = None
-    ok = sorted(handled) == modes and final and isinstance(final[-1], ast.Raise)
+    cs = cfg_of(f)
+    handled = {m_ for m_ in modes if evid.kind_edges(cs, 'io_mode', m_)}
+    # with io_mode equal to none of the known modes no path may return normally
+    env_none = {}
+    for m_ in modes:
+      env_none['io_mode == BackendMode.%s' % m_] = False
+      env_none['io_mode != BackendMode.%s' % m_] = True
+    may_n, must_n = evid.reach_env(cs, env_none)
+    falls = cs.exit in may_n
+    final = [ast.Raise()] if not falls else []
+    ok = sorted(handled) == modes and not falls
     R.judge(len(handled) >= 1, ok, key_of(f, 'handles %s, else raises' % modes), f, 'io.%s handles modes %s of %s and %s' % (f.name, sorted(handled), modes, 'raises otherwise' if final and isinstance(final[-1], ast.Raise) else 'does NOT raise otherwise'))
   for name in ('rename', 'copy'):
     f = mod.func(name)
